@@ -61,45 +61,56 @@ func ItemsEqual(it, with Item) bool {
 			return nil
 		})
 	} else if IsObject(it) {
-		_ = OnObject(it, func(i *Object) error {
-			result = i.Equals(with)
-			return nil
-		})
+		// NOTE: the Equals of the specific types compares the Object properties themselves,
+		// so the plain Object comparison is needed only when none of them could be applied.
+		compared := false
 		if typ := with.GetType(); typ == ActivityType || ActivityTypes.Contains(typ) {
 			_ = OnActivity(it, func(i *Activity) error {
 				result = i.Equals(with)
+				compared = true
 				return nil
 			})
 		} else if ActorTypes.Contains(with.GetType()) {
 			_ = OnActor(it, func(i *Actor) error {
 				result = i.Equals(with)
+				compared = true
 				return nil
 			})
 		} else if it.IsCollection() {
 			if it.GetType() == CollectionType {
 				_ = OnCollection(it, func(c *Collection) error {
 					result = c.Equals(with)
+					compared = true
 					return nil
 				})
 			}
 			if it.GetType() == OrderedCollectionType {
 				_ = OnOrderedCollection(it, func(c *OrderedCollection) error {
 					result = c.Equals(with)
+					compared = true
 					return nil
 				})
 			}
 			if it.GetType() == CollectionPageType {
 				_ = OnCollectionPage(it, func(c *CollectionPage) error {
 					result = c.Equals(with)
+					compared = true
 					return nil
 				})
 			}
 			if it.GetType() == OrderedCollectionPageType {
 				_ = OnOrderedCollectionPage(it, func(c *OrderedCollectionPage) error {
 					result = c.Equals(with)
+					compared = true
 					return nil
 				})
 			}
+		}
+		if !compared {
+			_ = OnObject(it, func(i *Object) error {
+				result = i.Equals(with)
+				return nil
+			})
 		}
 	}
 	return result
